@@ -1440,6 +1440,16 @@ def delitem(E, obj, idx):
             return
         except IndexError:
             E.throw('IndexError', 'index')
+    if isinstance(obj, list) and isinstance(idx, slice) and all(isinstance(x, (int, type(None))) for x in (idx.start, idx.stop, idx.step)):
+        del obj[idx]
+        return
+    if isinstance(obj, SByteArray) and isinstance(idx, slice) and idx.step in (None, 1):
+        # del buf[a:b]  ==  buf[:a] + buf[b:]   (in place: the bytearray object keeps its identity)
+        cur = lift_bytes(obj)
+        head = b_slice(E, cur, 0, idx.start if idx.start is not None else 0)
+        tail = b_slice(E, cur, idx.stop, None) if idx.stop is not None else lift_bytes(b'')
+        obj.val = lift_bytes(b_concat(lift_bytes(head), lift_bytes(tail)))
+        return
     raise Unsupported('del item on %r' % (obj,))
 
 
